@@ -42,6 +42,7 @@ type c13Mock struct {
 	starts       []time.Time
 	blocked      []time.Duration
 	deadlines    []time.Time // deadline of the context each ping was given
+	returns      []time.Time // when each ping returned
 	cancelledAt  int         // ping index during/around which the parent was cancelled, -1 = never
 	extraPing    chan struct{}
 	term         int // index of the ping after which KeepAlive must return (-1: none)
@@ -97,11 +98,23 @@ func (m *c13Mock) Ping(ctx context.Context) error {
 	switch o.Kind {
 	case "ok":
 		if o.DelayUs > 0 {
-			time.Sleep(time.Duration(o.DelayUs) * time.Microsecond)
+			// an answer that takes a while (possibly longer than the interval, always far shorter than the timeout)
+			if c.TimeoutUs < 1000000 {
+				// short-timeout class: the script decides, the per-ping deadline must not interfere under load
+				time.Sleep(time.Duration(o.DelayUs) * time.Microsecond)
+			} else {
+				select {
+				case <-time.After(time.Duration(o.DelayUs) * time.Microsecond):
+				case <-ctx.Done():
+					m.noteReturn(k)
+					return wrapError(ctx.Err(), "waiting PINGRESP")
+				}
+			}
 		}
 		if c.Cancel != nil && c.Cancel.At == k && c.Cancel.Phase == "after" {
 			m.markCancel(k)
 		}
+		m.noteReturn(k)
 		return nil
 	case "fail":
 		return wrapError(errC13Ping, "sending PINGREQ")
@@ -116,6 +129,15 @@ func (m *c13Mock) Ping(ctx context.Context) error {
 		m.mu.Unlock()
 		return wrapError(ctx.Err(), "waiting PINGRESP")
 	}
+}
+
+func (m *c13Mock) noteReturn(k int) {
+	m.mu.Lock()
+	for len(m.returns) <= k {
+		m.returns = append(m.returns, time.Time{})
+	}
+	m.returns[k] = time.Now()
+	m.mu.Unlock()
 }
 
 func (m *c13Mock) markCancel(k int) {
@@ -198,6 +220,7 @@ func c13Run(tb rapid.TB, c c13Case) {
 	starts := append([]time.Time{}, m.starts...)
 	blocked := append([]time.Duration{}, m.blocked...)
 	deadlines := append([]time.Time{}, m.deadlines...)
+	returns := append([]time.Time{}, m.returns...)
 	m.mu.Unlock()
 	_ = blocked
 
@@ -226,6 +249,15 @@ func c13Run(tb rapid.TB, c c13Case) {
 			fail("ping %d failed at once with an error, KeepAlive returned %v (want that error, not ErrPingTimeout)", term, ret)
 		}
 	}
+	// every ping gets the full timeout: its context is created after the previous ping returned, so its deadline
+	// cannot be earlier than that return plus the timeout (a stale tick must not shorten it)
+	for k := 1; k < len(deadlines); k++ {
+		if k-1 < len(returns) && !returns[k-1].IsZero() && !deadlines[k].IsZero() {
+			if min := returns[k-1].Add(timeout); deadlines[k].Before(min) {
+				fail("ping %d was given a deadline %v before (return of ping %d + timeout %v): it does not get the full timeout", k, min.Sub(deadlines[k]), k-1, timeout)
+			}
+		}
+	}
 	for k, s := range starts {
 		if min := time.Duration(k+1) * interval; s.Sub(t0) < min {
 			fail("ping %d started %v after KeepAlive was called, before %d intervals of %v had elapsed", k, s.Sub(t0), k+1, interval)
@@ -243,7 +275,7 @@ func c13Gen(rt *rapid.T) c13Case {
 	c := c13Case{IntervalUs: rapid.IntRange(300, 3000).Draw(rt, "intervalUs")}
 	n := rapid.IntRange(0, 6).Draw(rt, "n")
 	for i := 0; i < n; i++ {
-		c.Outcomes = append(c.Outcomes, c13Outcome{Kind: "ok", DelayUs: rapid.SampledFrom([]int{0, 0, 50, 300}).Draw(rt, "delay")})
+		c.Outcomes = append(c.Outcomes, c13Outcome{Kind: "ok", DelayUs: rapid.SampledFrom([]int{0, 0, 50, 300, 2000, 7000}).Draw(rt, "delay")})
 	}
 	switch rapid.IntRange(0, 3).Draw(rt, "end") {
 	case 0:
@@ -256,6 +288,12 @@ func c13Gen(rt *rapid.T) c13Case {
 	c.TimeoutUs = 2000000
 	if l := len(c.Outcomes); l > 0 && c.Outcomes[l-1].Kind == "never" {
 		c.TimeoutUs = rapid.IntRange(300, 6000).Draw(rt, "timeoutUs")
+		// answered pings must stay far below the timeout, whatever the load: no slow answers in this class
+		for i := range c.Outcomes {
+			if c.Outcomes[i].DelayUs > 50 {
+				c.Outcomes[i].DelayUs = 50
+			}
+		}
 	}
 	if len(c.Outcomes) > 0 && rapid.IntRange(0, 2).Draw(rt, "cancel") == 0 {
 		at := rapid.IntRange(0, len(c.Outcomes)-1).Draw(rt, "at")
